@@ -43,6 +43,10 @@ def showSt : St → String
 structure Sv where
   m : MServer
   cur : Nat
+  /-- (connection, request index): a NEW client connects while the first handler of that request runs (script prefix `q`) -/
+  hq : List (Nat × Nat) := []
+  /-- what the clients waiting in the listen backlog have already sent (one entry per waiting client, in connect order) -/
+  pdata : List Bytes := []
 
 /-- the current connection's record, with the (global) queue of write answers in front of it -/
 def Sv.view (v : Sv) : Server :=
@@ -64,22 +68,25 @@ inductive Mode
 
 /-- what the OTHER connections see during an op (bytes at their clients: never; end of stream: when the server was stopped)
 and the system calls on the server side of every connection (close when a connection is torn down; nothing else) -/
-def crossLines (v v' : Sv) (threw : Bool) : List String :=
-  if threw then ["M sys -"] else
+def crossLinesG (all : Bool) (v v' : Sv) (threw : Bool) : List String :=
+  if threw && !all then ["M sys -"] else
   let idx := List.range v'.m.clients.length
   let valid (m : MServer) (d : Nat) : Bool := ((m.clients[d]?).map (·.srv.pipe.valid)).getD false
   let bytes (m : MServer) (d : Nat) : Bytes := ((m.clients[d]?).map (·.srv.pipe.peerBytes)).getD []
   let xs := idx.flatMap fun d =>
-    if d == v.cur then [] else
+    if d == v.cur && !all then [] else
     let newly := (bytes v'.m d).drop (bytes v.m d).length
     (if newly.isEmpty then [] else ["P xout " ++ toString d ++ " " ++ hexOfBytes newly]) ++
-    (if valid v.m d && !valid v'.m d then ["P xeof " ++ toString d] else [])
+    (if valid v.m d && !valid v'.m d && !threw then ["P xeof " ++ toString d] else [])
   -- `TcpServer::stop()` walks the cabinet cell by cell: the sockets are closed in the order of their cabinet positions
   let pos (d : Nat) : Nat := ((v'.m.clients[d]?).map (·.tok.pos)).getD 0
-  let closing := (idx.filter fun d => (valid v.m d || d ≥ v.m.clients.length) && !valid v'.m d).mergeSort (fun a b => pos a ≤ pos b)
+  let closing := if threw then [] else
+    (idx.filter fun d => (valid v.m d || d ≥ v.m.clients.length) && !valid v'.m d).mergeSort (fun a b => if all || !v'.hq.isEmpty then a ≤ b else pos a ≤ pos b)
   let sys := (idx.filter (· ≥ v.m.clients.length)).map (fun d => "c" ++ toString d ++ ":setfl+nonblock") ++
     closing.map (fun d => "c" ++ toString d ++ ":close")
   xs ++ ["M sys " ++ (if sys.isEmpty then "-" else ",".intercalate sys)]
+
+def crossLines (v v' : Sv) (threw : Bool) : List String := crossLinesG false v v' threw
 
 def evTags (evs : List Ev) : List String :=
   evs.map fun e => match e with
@@ -167,9 +174,26 @@ def scriptTags (s : Server) (ds : List Delivered) : List String :=
     (if acts.contains .cleanup then ["h-cleanup"] else []) ++
     (if acts.contains .keep && acts.any (fun a => match a with | .body _ => true | _ => false) then ["h-keep-and-body"] else [])
 
-def doSeg (v : Sv) (seg : Bytes) : Sv × List String :=
+/-- a client connects (from inside a handler, or while the server is stopped): accepted in one of the next loop passes
+when the server is running, left in the listen backlog when it is stopped, refused after `cleanup()` -/
+def Sv.arrive (v : Sv) (data : Bytes) : Sv :=
+  if v.m.poisoned then v else
+  if v.m.state == .running then { v with m := v.m.step .conn }
+  else if v.m.state == .inited then { v with m := v.m.step .connq, pdata := v.pdata ++ [data] }
+  else v
+
+/-- the clients that connected from inside handlers during this op: the listening socket is looked at in the passes AFTER the
+one that ran the handlers, so a `stop()` later in the same pass leaves all of them in the backlog -/
+def Sv.arrivals (v : Sv) (nq : Nat) : Sv × List String :=
+  let v' := (List.range nq).foldl (fun a _ => a.arrive []) v
+  (v', if nq > 0 then ["P hconn " ++ toString v'.m.clients.length ++ " " ++ toString v'.m.pending] else [])
+
+/-- returns the state BEFORE the handler-time connects are taken into account, the lines up to and the lines after the
+`P hconn` line, and the number of such connects -/
+def doSeg0 (v : Sv) (seg : Bytes) (multi : Bool) : Sv × List String × List String × Nat :=
   let s := v.view
   let (_, ds, st) := s.seg cfg seg
+  let nq := (ds.filter fun d => v.hq.contains (v.cur, d.idx)).length
   let v' := v.apply (.seg seg)
   let s' := v'.view
   let stl := match st with | .threw => ["P exception"] | .hang => ["P hang"] | .ok => []
@@ -179,10 +203,44 @@ def doSeg (v : Sv) (seg : Bytes) : Sv × List String :=
           (if s'.pipe.wbroken && !s.pipe.wbroken then ["epipe-in-seg"] else []) ++
           (if v.m.clients.length > 1 then ["multi-seg"] else []) ++
           (if v.m.clients.length > 1 && !s.conn.buf.isEmpty then ["multi-seg-resumes"] else []) ++
-          (if (MServer.segStops s seg).isSome && others > 1 then ["multi-handler-stop"] else []))] ++
-       deliveredLines ds ++ stl ++
+          (if (MServer.segStops s seg).isSome && others > 1 then ["multi-handler-stop"] else []) ++
+          (if nq > 0 then ["h-connect"] ++ (if (MServer.segStops s seg) == some false then ["h-connect-queued"] else []) ++
+             (if (MServer.segStops s seg) == some true then ["h-connect-lost"] else []) else []))] ++
+       (if multi then (deliveredLines ds).flatMap (fun l => if l.startsWith "P req " then ["P xreq " ++ toString v.cur, l] else [l])
+        else deliveredLines ds) ++ stl,
        -- after an exception the loop is not run again: a pending close of the socket is not seen by the client
-       (showOut s.pipe s'.pipe).filter (fun l => !(st == .threw && l == "P eof")))
+       (if multi then [] else (showOut s.pipe s'.pipe).filter (fun l => !(st == .threw && l == "P eof"))), nq)
+
+def doSeg (v : Sv) (seg : Bytes) : Sv × List String :=
+  let (v1, pre, post, nq) := doSeg0 v seg false
+  let (v2, hl) := v1.arrivals nq
+  (v2, pre ++ hl ++ post)
+
+/-- several connections have a segment waiting when the loop makes its next pass; the engine reports them in the order of
+`items` (oracle: the order of the events `epoll_wait` returns). A handler that throws ends the pass; one that stops the server
+leaves the remaining connections torn down before their segment is read. -/
+def multiSeg (v : Sv) (items : List (Nat × Bytes)) : Sv × List String × Bool :=
+  let cur0 := v.cur
+  let (v0, ls, rd, threw, nq) := items.foldl (fun (acc : Sv × List String × List Nat × Bool × Nat) (it : Nat × Bytes) =>
+    let (a, ls, rd, threw, nq) := acc
+    if threw || it.2.isEmpty then acc else
+    let a1 : Sv := { a with cur := it.1 }
+    if a1.view.halfSpec then acc else
+    let live := a1.view.pipe.valid
+    let (a2, l2, _, n2) := doSeg0 a1 it.2 true
+    ({ a2 with cur := cur0 }, ls ++ l2, if live then rd ++ [it.1] else rd, l2.contains "P exception", nq + n2)) (v, [], [], false, 0)
+  let (v', hl) := v0.arrivals nq
+  let tags := (ls.filter (·.startsWith "B ")).map (fun l => (l.drop 2).toString)
+  let ps := ls.filter (fun l => !l.startsWith "B ")
+  (v', ["B " ++ " ".intercalate tags] ++ ps ++ hl ++ ["M rd " ++ (if rd.isEmpty then "-" else ",".intercalate (rd.map fun c => "c" ++ toString c))], threw)
+
+def parseItems (spec : String) : Option (List (Nat × Bytes)) :=
+  (spec.splitOn ",").mapM fun it =>
+    match it.splitOn ":" with
+    | [c, h] => match c.toNat?, bytesOfHex h with
+      | some c, some b => if b.isEmpty then none else some (c, b)
+      | _, _ => none
+    | _ => none
 
 def parseAct (w : String) : Option HAct :=
   if w == "n" then some .next else if w == "k" then some .keep else if w == "t" then some .throw
@@ -197,7 +255,7 @@ def parseScript (spec : String) : Option HScript :=
 
 def poisonOps : List String :=
   ["seg", "done", "doneN", "doneR", "rel", "cclose", "dclose", "dcloseN", "cdone", "chalf", "chalfS", "wfail", "sstop", "sclean", "wq", "rseg",
-   "conn", "sstart"]
+   "conn", "connd", "sstart", "mseg", "msegr"]
 
 /-- `p` pass, `a` EAGAIN, `e` EPIPE, `s<n>` short count -/
 def parseWAns (w : String) : Option WAns :=
@@ -209,10 +267,31 @@ def wqTags (q : List WAns) : String :=
   " ".intercalate (q.map fun a => match a with
     | .pass => "wq-pass" | .short _ => "wq-short" | .again => "wq-again" | .epipe => "wq-epipe")
 
+/-- `mseg` / `msegr` (the clients send in the listed / in the opposite order; the engine reports the listed order) -/
+def doMseg (op spec : String) (m : Mode) : Mode × List String :=
+    match parseItems spec, m with
+    | some items, .server v =>
+      let cs := items.map (·.1)
+      if items.length > 8 || cs.eraseDups.length != cs.length || cs.any (· ≥ v.m.clients.length) || !v.m.wq.isEmpty then (m, ["bad-op"]) else
+      let (v', ls, threw) := multiSeg v items
+      let far : Sv → Sv := fun a => { a with cur := 1000000 }
+      let live := (items.filter fun it => ((v.m.clients[it.1]?).map (·.srv.pipe.valid)).getD false).length
+      (.server v', (match ls with
+                    | b :: rest => (b ++ " " ++ op ++ (if live ≥ 2 then " same-pass-" ++ toString (min live 4) else "") ++
+                                     (if op == "msegr" && live ≥ 2 then " same-pass-reordered" else "")) :: rest
+                    | [] => []) ++ crossLinesG true (far v) (far v') threw)
+    | _, _ => (m, ["bad-op"])
+
+/-- ops about the current connection: refused while there is none (server created without a client, `srvq`) -/
+def curOps : List String :=
+  ["seg", "done", "doneN", "doneR", "rel", "cclose", "dclose", "dcloseN", "cdone", "chalf", "chalfS", "wfail", "rseg", "sync", "script"]
+
 def stepLine0 (m : Mode) (line : String) : Mode × List String :=
   let ws := words line
   let poisoned := match m with | .server v => v.m.poisoned | _ => false
   if poisoned && (match ws with | w :: _ => poisonOps.contains w | [] => false) then (m, ["P poisoned"]) else
+  let noCur := match m with | .server v => v.cur ≥ v.m.clients.length | _ => false
+  if noCur && (match ws with | w :: _ => curOps.contains w | [] => false) then (m, ["bad-op"]) else
   match ws with
   | [] => (m, [])
   | "case" :: _ => (.fresh, [line.trimAscii.toString])
@@ -231,18 +310,24 @@ def stepLine0 (m : Mode) (line : String) : Mode × List String :=
     | none => (m, ["bad-op"])
   | ["srv"] =>
     match m with
-    | .fresh => (.server ⟨({} : MServer).step .conn, 0⟩, ["P srv"])
+    | .fresh => (.server ⟨({} : MServer).step .conn, 0, [], []⟩, ["P srv"])
     | _ => (m, ["bad-op"])
   | ["srv", k] =>
     -- the first k accept() calls of the listener fail (EMFILE, ECONNABORTED …): the connection is accepted in a later pass
     match k.toNat?, m with
-    | some k, .fresh => if k ≥ 1 && k ≤ 5 then (.server ⟨({} : MServer).step .conn, 0⟩, ["B accept-errors", "P srv"]) else (m, ["bad-op"])
+    | some k, .fresh => if k ≥ 1 && k ≤ 5 then (.server ⟨({} : MServer).step .conn, 0, [], []⟩, ["B accept-errors", "P srv"]) else (m, ["bad-op"])
     | _, _ => (m, ["bad-op"])
   | ["conn"] =>
     -- one more client connects (accepted at once while the server is running; refused to try otherwise)
     match m with
     | .server v =>
-      if v.m.state != .running || v.m.clients.length ≥ 8 then (m, ["bad-op"]) else
+      if v.m.state == .none then (m, ["B conn-refused", "P conn refused"]) else
+      if v.m.clients.length + v.m.pending ≥ 8 then (m, ["bad-op"]) else
+      if v.m.state == .inited then
+        if v.m.pending ≥ 4 then (m, ["bad-op"]) else
+        (.server (v.arrive []), ["B conn-queued" ++ (if v.m.clients.isEmpty then " conn-before-start" else ""),
+                                  "P conn " ++ toString (v.m.clients.length + v.m.pending) ++ " queued"])
+      else
       let m' := v.m.step .conn
       let reused := match m'.clients.getLast? with
         | some cl => v.m.clients.any (fun o => o.tok.pos == cl.tok.pos)
@@ -250,6 +335,21 @@ def stepLine0 (m : Mode) (line : String) : Mode × List String :=
       (.server { v with m := m' }, ["B conn" ++ (if reused then " slot-reused" else "") ++
           (if (v.m.clients.filter (·.srv.pipe.valid)).length ≥ 1 then " conn-beside-live" else ""), "P conn " ++ toString v.m.clients.length])
     | _ => (m, ["bad-op"])
+  | ["connd", h] =>
+    -- a client connects while the server is stopped and sends at once: the bytes wait in the kernel until it is accepted
+    match bytesOfHex h, m with
+    | some b, .server v =>
+      if b.isEmpty || v.m.state != .inited || v.m.pending ≥ 4 || v.m.clients.length + v.m.pending ≥ 8 then (m, ["bad-op"]) else
+      (.server (v.arrive b), ["B conn-queued conn-queued-data" ++ (if v.m.clients.isEmpty then " conn-before-start" else ""),
+                               "P conn " ++ toString (v.m.clients.length + v.m.pending) ++ " queued"])
+    | _, _ => (m, ["bad-op"])
+  | ["srvq"] =>
+    -- the server is initialised (listening socket bound) but not started; no client yet
+    match m with
+    | .fresh => (.server ⟨{ state := .inited }, 0, [], []⟩, ["B srvq", "P srvq"])
+    | _ => (m, ["bad-op"])
+  | ["mseg", spec] => doMseg "mseg" spec m
+  | ["msegr", spec] => doMseg "msegr" spec m
   | ["on", k] =>
     match k.toNat?, m with
     | some k, .server v => if k < v.m.clients.length then (.server { v with cur := k }, ["P on " ++ toString k]) else (m, ["bad-op"])
@@ -257,9 +357,19 @@ def stepLine0 (m : Mode) (line : String) : Mode × List String :=
   | ["sstart"] =>
     match m with
     | .server v =>
-      let m' := v.m.step .start
-      (.server { v with m := m' }, ["B sstart" ++ (if v.m.state == .inited then " restarted" else ""),
-                                     "P sstart " ++ (if v.m.state == .inited then "1" else "0")])
+      let ok := v.m.state == .inited
+      let n0 := v.m.clients.length
+      let v1 : Sv := { v with m := v.m.step .start, pdata := if ok then [] else v.pdata }
+      -- the clients of the backlog are accepted (one per loop pass, in connect order); what they had sent already is read in
+      -- the pass after the last accept, in connection order
+      let items := if ok then (List.range v.pdata.length).filterMap (fun j =>
+                     let b := v.pdata.getD j []; if b.isEmpty then none else some (n0 + j, b)) else []
+      let (v2, ls, threw) := multiSeg v1 items
+      let far : Sv → Sv := fun a => { a with cur := 1000000 }
+      (.server v2, ["B sstart" ++ (if ok then " restarted" else "") ++ (if ok && v.m.pending > 0 then " backlog-accepted-" ++ toString (min v.m.pending 3) else "") ++
+                       (if !items.isEmpty then " backlog-data-read" else "") ++
+                       (if ok && v.m.pending > 0 && !v.m.clients.isEmpty then " backlog-beside-old" else ""),
+                    "P sstart " ++ (if ok then "1" else "0")] ++ (if items.isEmpty then [] else ls) ++ crossLinesG true (far v) (far v2) threw)
     | _ => (m, ["bad-op"])
   | ["wq", spec] =>
     match (spec.splitOn ",").mapM parseWAns, m with
@@ -284,11 +394,14 @@ def stepLine0 (m : Mode) (line : String) : Mode × List String :=
       if (v.view.scripts.lookup i).isSome then (m, ["bad-op"])
       else (.server (v.apply (.script i [[.body b]])), ["P sync"])
     | _, _, _ => (m, ["bad-op"])
-  | ["script", i, spec] =>
+  | ["script", i, spec0] =>
+    -- a leading `q` (first action of the first handler): a new client connects while that handler runs
+    let hasQ := spec0 == "q" || spec0.startsWith "q." || spec0.startsWith "q/"
+    let spec := if !hasQ then spec0 else if spec0.startsWith "q." then (spec0.drop 2).toString else "-" ++ (spec0.drop 1).toString
     match i.toNat?, parseScript spec, m with
     | some i, some sc, .server v =>
       if (v.view.scripts.lookup i).isSome then (m, ["bad-op"])
-      else (.server (v.apply (.script i sc)), ["P script"])
+      else (.server { v.apply (.script i sc) with hq := if hasQ then (v.cur, i) :: v.hq else v.hq }, ["P script"])
     | _, _, _ => (m, ["bad-op"])
   | ["seg", h] =>
     match bytesOfHex h, m with
@@ -466,7 +579,7 @@ def stepLine0 (m : Mode) (line : String) : Mode × List String :=
   | _ => (m, ["bad-op"])
 
 /-- ops that only switch the connection the following lines are about, or are answered without touching the server -/
-def quietOps : List String := ["on", "case", "feed", "method", "version", "upath", "uhost", "url", "mkpath", "mkurl", "enc", "dec", "mkreq", "mkres"]
+def quietOps : List String := ["on", "case", "mseg", "msegr", "sstart", "feed", "method", "version", "upath", "uhost", "url", "mkpath", "mkurl", "enc", "dec", "mkreq", "mkres"]
 
 def stepLine (m : Mode) (line : String) : Mode × List String :=
   let (m', ls) := stepLine0 m line
@@ -474,7 +587,7 @@ def stepLine (m : Mode) (line : String) : Mode × List String :=
   if ls == ["bad-op"] || ls == ["P poisoned"] || ls.isEmpty || quietOps.contains op then (m', ls) else
   match m, m' with
   | .server v, .server v' => (m', ls ++ crossLines v v' (ls.contains "P exception"))
-  | .fresh, .server v' => (m', ls ++ crossLines ⟨{}, 0⟩ v' false)
+  | .fresh, .server v' => (m', ls ++ crossLines ⟨{}, 0, [], []⟩ v' false)
   | _, _ => (m', ls)
 
 def main : IO Unit := runDriver Mode.fresh stepLine
